@@ -603,7 +603,7 @@ func checkNative(t *rapid.T, hashBits, sigBits int) {
 }
 
 func TestNative(t *testing.T) {
-	stats.Check(t, 600, 5000, func(t *rapid.T) { checkNative(t, 6, 12) })
+	stats.Check(t, 500, 5000, func(t *rapid.T) { checkNative(t, 6, 12) })
 }
 
 // every bit of hash and signature
@@ -948,7 +948,7 @@ func mutBytes(t *rapid.T, old []byte, label string) []byte {
 }
 
 func TestEth(t *testing.T) {
-	stats.Check(t, 600, 5000, func(t *rapid.T) { checkEth(t, 6, 20) })
+	stats.Check(t, 500, 5000, func(t *rapid.T) { checkEth(t, 6, 20) })
 }
 
 // every bit of the declared hash and of the RLP payload
